@@ -1,5 +1,6 @@
 import F3.Spec.GraniteNet
 import F3.Props.C01
+import F3.Proofs.SyncNet
 /-!
 # C02 — Validity
 
@@ -9,10 +10,15 @@ makes this an invariant — an honest PREPARE is for a good value of its own, or
 already had a strong PREPARE quorum in an earlier round — is proved of the executable model
 (`F3.Instance.runFrom_guarded`, candidate-set soundness `CandOK`), giving `validity_model`.
 
-The second sentence of the property (unanimous honest input + synchrony ⇒ that chain is decided) is a
-liveness statement under a real-time bound: its untimed core is `C06.unanimous_step_*` (each phase of round 0
-ends with the unanimous value once a strong quorum for it has been tallied); the timed claim is validated on
-every `sync`-mode run of the harness (oracle `C02-unanimous-synchronous-run-decided-another-chain`).
+The second sentence of the property (unanimous honest input + strong honest quorum + synchrony + no faulty
+sender ⇒ that chain is decided) is proved at network level over the executable model in section `Sync` below:
+`unanimous_sync_invariant` (safety: no failure, only messages for the common chain, everybody stays in round 0
+and can only decide that chain) and `unanimous_sync_decides` (every complete execution has decided it), for the
+network `F3.Net` of honest model participants (`F3/Model/Net.lean`), every delivery order, every table and every
+per-node configuration. Real time enters only through `SyncOrdered` (the order of deliveries and expired
+timeouts that the bound implies; see the header of `F3/Model/Net.lean`). The per-phase steps are also in
+`C06.unanimous_step_*`; the timed claim is additionally validated on every `sync`-mode run of the harness (oracle
+`C02-unanimous-synchronous-run-decided-another-chain`).
 -/
 namespace F3.Props.C02
 open F3.Granite F3.Props.C01
@@ -132,5 +138,187 @@ example : ∃ d, (prun (exNetP.runs 1 (by decide) (by decide)).order
   ex_networkP_decides.2.2
 
 end ParticipantAPI
+/-! ## Unanimous honest input under synchrony: that chain is decided (network of model participants)
+
+Setting (`F3.Net`): the honest members `H` (distinct, all in the table `tbl`, total power a strong quorum by the
+code's predicate `strongQ`) each run the instance model from `init (cfg p) tbl c` for one common non-empty chain
+`c`; `cfg` is arbitrary per node. An execution is any list of `start` / `deliver` / `alarm` events admitted by
+`execOk` (a node starts once; only started nodes are handed messages and alarms; **only pool messages are
+delivered — no faulty sender**; duplicates and every delivery order are allowed; a delivery to a node whose
+instance has terminated is dropped as `participant.go` does) and satisfying `SyncOrdered` (a node that finds
+a round-0 QUALITY/PREPARE/COMMIT timeout expired — in an alarm or at the end of a `Receive` — has been handed
+that phase's message of every member of `H`: the untimed content of "messages arrive within the bound"). -/
+section Sync
+open F3.Instance F3.Net
+
+/-- the only messages a unanimous run puts on the wire: QUALITY(0,c), PREPARE(0,c), COMMIT(0,c) justified by
+PREPAREs for `c`, DECIDE(0,c) justified by COMMITs for `c` -/
+def UnanimousMsg (c : Chain) (m : Msg) : Prop :=
+  m.round = 0 ∧ m.value = c ∧
+  ((m.phase = .quality ∧ m.just = none) ∨ (m.phase = .prepare ∧ m.just = none) ∨
+   (m.phase = .commit ∧ ∃ j, m.just = some j ∧ j.round = 0 ∧ j.phase = .prepare ∧ j.value = c) ∨
+   (m.phase = .decide ∧ ∃ j, m.just = some j ∧ j.round = 0 ∧ j.phase = .commit ∧ j.value = c))
+
+/-- **Safety of the unanimous synchronous run.** In every admissible, synchrony-ordered execution: (a) no node
+ever reports a failure effect (`err` / `panic`); (b) every message ever broadcast comes from a member of `H` and is
+QUALITY / PREPARE / justified COMMIT / justified DECIDE of round 0 for `c`; (c) every node is still in round 0 and a
+node that has a termination value has decided `c`. -/
+theorem unanimous_sync_invariant (tbl : Table) (H : List Pid) (c : Chain) (cfg : Pid → Cfg)
+    (hnd : H.Nodup) (hin : ∀ p ∈ H, p ∈ tbl.entries.map (·.1))
+    (hq : strongQ tbl ((H.map tbl.power).sum) = true) (hc : c ≠ []) (ops : List NetOp)
+    (hexec : execOk (initNet tbl H cfg (fun _ => c)) ops = true)
+    (hsync : SyncOrdered (initNet tbl H cfg (fun _ => c)) ops) :
+    (runNet (initNet tbl H cfg (fun _ => c)) ops).fails = [] ∧
+    (∀ m ∈ (runNet (initNet tbl H cfg (fun _ => c)) ops).pool, m.sender ∈ H ∧ UnanimousMsg c m) ∧
+    (runNet (initNet tbl H cfg (fun _ => c)) ops).nodes.map (·.1) = H ∧
+    (∀ p s, (p, s) ∈ (runNet (initNet tbl H cfg (fun _ => c)) ops).nodes →
+      s.round = 0 ∧ ∀ d, s.termination = some d → d.value = c) := by
+  have hctx := F3.Sync.ctx_of tbl c H hc hnd hin hq
+  have hn := F3.Sync.runNet_inv hctx ops (F3.Sync.initNet_inv tbl c H cfg) hexec hsync
+  refine ⟨hn.fails, ?_, hn.ids, ?_⟩
+  · intro m hm
+    obtain ⟨hs, hH⟩ := hn.pool m hm
+    refine ⟨hH, hs.1, hs.2.1, ?_⟩
+    obtain ⟨h1, h2, h3, h4⟩ := F3.Sync.shape_just hs
+    have hph := hs.2.2.2.2
+    cases hp : m.phase <;> rw [hp] at hph
+    · exact hph.elim
+    · exact Or.inl ⟨rfl, h1 hp⟩
+    · exact hph.elim
+    · exact Or.inr (Or.inl ⟨rfl, h2 hp⟩)
+    · exact Or.inr (Or.inr (Or.inl ⟨rfl, h3 hp⟩))
+    · exact Or.inr (Or.inr (Or.inr ⟨rfl, h4 hp⟩))
+    · exact hph.elim
+  · intro p s hp
+    have hno := hn.node p s hp
+    exact ⟨hno.sinv.round, hno.sinv.term⟩
+
+/-- **The unanimous chain is decided.** If moreover the execution is *complete* — every member has started and
+every message ever broadcast has been handed to every member — then every member has terminated, with decision
+`c`. For a base-only chain (`c.length = 1`) QUALITY tallies nothing (`ReceiveEachPrefix` counts proper extensions
+of the base only) and ends by its timer alone, so completeness must then include that every QUALITY timer has
+fired (`timersFired`); the example after the theorem shows that this cannot be dropped. -/
+theorem unanimous_sync_decides (tbl : Table) (H : List Pid) (c : Chain) (cfg : Pid → Cfg)
+    (hnd : H.Nodup) (hin : ∀ p ∈ H, p ∈ tbl.entries.map (·.1))
+    (hq : strongQ tbl ((H.map tbl.power).sum) = true) (hc : c ≠ []) (ops : List NetOp)
+    (hexec : execOk (initNet tbl H cfg (fun _ => c)) ops = true)
+    (hsync : SyncOrdered (initNet tbl H cfg (fun _ => c)) ops)
+    (hcomplete : complete (runNet (initNet tbl H cfg (fun _ => c)) ops) = true)
+    (htimers : 2 ≤ c.length ∨ timersFired (runNet (initNet tbl H cfg (fun _ => c)) ops) = true) :
+    (∀ p ∈ H, ∃ s, (p, s) ∈ (runNet (initNet tbl H cfg (fun _ => c)) ops).nodes) ∧
+    ∀ p s, (p, s) ∈ (runNet (initNet tbl H cfg (fun _ => c)) ops).nodes →
+      s.phase = .terminated ∧ ∃ d, s.termination = some d ∧ d.value = c := by
+  have hctx := F3.Sync.ctx_of tbl c H hc hnd hin hq
+  have hn := F3.Sync.runNet_inv hctx ops (F3.Sync.initNet_inv tbl c H cfg) hexec hsync
+  refine ⟨?_, ?_⟩
+  · intro p hp
+    rw [← hn.ids] at hp
+    obtain ⟨e, he, rfl⟩ := List.mem_map.1 hp
+    exact ⟨e.2, he⟩
+  · intro p s hp
+    have ht := F3.Sync.complete_terminated hctx hn hcomplete htimers p s hp
+    exact ⟨ht, F3.Sync.terminated_value hn hp ht⟩
+
+/-! ### non-vacuity -/
+
+def syTbl : Table := { entries := [(1, 10), (2, 10), (3, 10)] }
+def syCfg : Cfg := { maxLookahead := 2, rebImmediateAfter := 3, timeout2 := [100], qualityTimeout2 := 100, rebAfter := [50] }
+def syNet (c : Chain) : Net := initNet syTbl [1, 2, 3] (fun _ => syCfg) (fun _ => c)
+def syQ (c : Chain) (p : Pid) : Msg := { sender := p, round := 0, phase := .quality, value := c }
+def syP (c : Chain) (p : Pid) : Msg := { sender := p, round := 0, phase := .prepare, value := c }
+def syC (c : Chain) (p : Pid) : Msg :=
+  { sender := p, round := 0, phase := .commit, value := c,
+    just := some { round := 0, phase := .prepare, value := c, signers := [0, 1] } }
+def syD (c : Chain) (p : Pid) : Msg :=
+  { sender := p, round := 0, phase := .decide, value := c,
+    just := some { round := 0, phase := .commit, value := c, signers := [0, 1] } }
+
+/-- three equal members, input `[7, 8]`. Reorderings: node 2 is handed a PREPARE before any QUALITY, node 3 a
+PREPARE between two QUALITYs and a DECIDE before any COMMIT; `alarm 3 10` is a non-expired alarm; DECIDEs arrive
+at nodes that have already terminated. -/
+def syOps : List NetOp :=
+  let c := [7, 8]
+  [.start 1 0, .start 2 0, .start 3 0,
+   .deliver 1 1 (syQ c 1), .deliver 1 2 (syQ c 2),
+   .deliver 2 3 (syP c 1), .deliver 2 4 (syQ c 1), .deliver 2 5 (syQ c 2),
+   .alarm 3 10,
+   .deliver 3 11 (syQ c 3), .deliver 3 12 (syP c 2), .deliver 3 13 (syQ c 1),
+   .deliver 1 14 (syQ c 3), .deliver 2 15 (syQ c 3), .deliver 3 16 (syQ c 2),
+   .deliver 1 20 (syP c 1), .deliver 1 21 (syP c 2),
+   .deliver 2 22 (syP c 2), .deliver 2 23 (syP c 3),
+   .deliver 3 24 (syP c 1), .deliver 3 25 (syP c 3),
+   .deliver 1 26 (syP c 3),
+   .deliver 1 30 (syC c 1), .deliver 1 31 (syC c 2),
+   .deliver 2 32 (syC c 1), .deliver 2 33 (syC c 2),
+   .deliver 3 34 (syD c 1), .deliver 3 35 (syC c 1), .deliver 3 36 (syC c 2), .deliver 3 37 (syC c 3),
+   .deliver 1 38 (syC c 3), .deliver 2 39 (syC c 3),
+   .deliver 1 40 (syD c 1), .deliver 1 41 (syD c 2), .deliver 1 42 (syD c 3),
+   .deliver 2 43 (syD c 1), .deliver 2 44 (syD c 2), .deliver 2 45 (syD c 3),
+   .deliver 3 46 (syD c 2), .deliver 3 47 (syD c 3)]
+
+/-- Non-vacuity of both theorems: the hypotheses hold of a concrete execution with reordering and a non-expired
+alarm, and (as the theorems say) nothing failed and everybody decided `[7, 8]`. -/
+example :
+    [1, 2, 3].Nodup ∧ (∀ p ∈ [1, 2, 3], p ∈ syTbl.entries.map (·.1)) ∧
+    strongQ syTbl (([1, 2, 3].map syTbl.power).sum) = true ∧
+    execOk (syNet [7, 8]) syOps = true ∧ SyncOrdered (syNet [7, 8]) syOps ∧
+    complete (runNet (syNet [7, 8]) syOps) = true ∧
+    (runNet (syNet [7, 8]) syOps).fails = [] ∧
+    (runNet (syNet [7, 8]) syOps).nodes.map (fun e => (e.1, e.2.phase, e.2.termination.map (·.value))) =
+      [(1, .terminated, some [7, 8]), (2, .terminated, some [7, 8]), (3, .terminated, some [7, 8])] := by
+  refine ⟨by decide, by decide, by decide, by decide, ?_, by decide, by decide, by decide⟩
+  unfold SyncOrdered
+  decide
+
+def syAll (now : Int) (m : Msg) : List NetOp := [.deliver 1 now m, .deliver 2 now m, .deliver 3 now m]
+
+/-- base-only input `[7]`: everybody starts and is handed every QUALITY message — and nothing more happens
+until a QUALITY timer fires -/
+def syOpsBaseQ : List NetOp :=
+  [.start 1 0, .start 2 0, .start 3 0] ++ syAll 1 (syQ [7] 1) ++ syAll 2 (syQ [7] 2) ++ syAll 3 (syQ [7] 3)
+
+/-- ... the timers fire (`alarm 1 50` is a non-expired alarm, the next three are expired and admitted by
+`SyncOrdered` because every QUALITY message has been handed over), and the run completes -/
+def syOpsBase : List NetOp :=
+  syOpsBaseQ ++ [.alarm 1 50, .alarm 1 100, .alarm 2 100, .alarm 3 101] ++
+  syAll 110 (syP [7] 1) ++ syAll 111 (syP [7] 2) ++ syAll 112 (syP [7] 3) ++
+  syAll 120 (syC [7] 1) ++ syAll 121 (syC [7] 2) ++ syAll 122 (syC [7] 3) ++
+  syAll 130 (syD [7] 1) ++ syAll 131 (syD [7] 2) ++ syAll 132 (syD [7] 3)
+
+/-- Non-vacuity of the `timersFired` alternative (base-only chain, expired alarms under `SyncOrdered`). -/
+example :
+    execOk (syNet [7]) syOpsBase = true ∧ SyncOrdered (syNet [7]) syOpsBase ∧
+    complete (runNet (syNet [7]) syOpsBase) = true ∧ timersFired (runNet (syNet [7]) syOpsBase) = true ∧
+    (runNet (syNet [7]) syOpsBase).nodes.map (fun e => (e.1, e.2.phase, e.2.termination.map (·.value))) =
+      [(1, .terminated, some [7]), (2, .terminated, some [7]), (3, .terminated, some [7])] := by
+  refine ⟨by decide, ?_, by decide, by decide, by decide⟩
+  unfold SyncOrdered
+  decide
+
+/-- The `timersFired` alternative cannot be dropped for a base-only chain: an admissible, synchrony-ordered,
+complete execution in which nobody has left QUALITY. -/
+example :
+    execOk (syNet [7]) syOpsBaseQ = true ∧ SyncOrdered (syNet [7]) syOpsBaseQ ∧
+    complete (runNet (syNet [7]) syOpsBaseQ) = true ∧
+    (runNet (syNet [7]) syOpsBaseQ).nodes.map (fun e => (e.1, e.2.phase)) =
+      [(1, .quality), (2, .quality), (3, .quality)] := by
+  refine ⟨by decide, ?_, by decide, by decide⟩
+  unfold SyncOrdered
+  decide
+
+/-- Why `SyncOrdered` also constrains deliveries: `gpbft.go` re-evaluates the phase timeout at the end of
+every `Receive` (`tryQuality`: `foundQuorum || timeoutExpired`). A QUALITY message handed over after the QUALITY
+timeout, before the others (no alarm involved), makes node 1 PREPARE the base `[7]` instead of `[7, 8]`; the
+execution is admissible but not synchrony-ordered. -/
+example :
+    execOk (syNet [7, 8]) [.start 1 0, .deliver 1 1000 (syQ [7, 8] 1)] = true ∧
+    ¬ SyncOrdered (syNet [7, 8]) [.start 1 0, .deliver 1 1000 (syQ [7, 8] 1)] ∧
+    (runNet (syNet [7, 8]) [.start 1 0, .deliver 1 1000 (syQ [7, 8] 1)]).pool.map (fun m => (m.sender, m.phase, m.value)) =
+      [(1, .quality, [7, 8]), (1, .prepare, [7])] := by
+  refine ⟨by decide, ?_, by decide⟩
+  unfold SyncOrdered
+  decide
+
+end Sync
 
 end F3.Props.C02
